@@ -28,6 +28,15 @@ def matrix(ctx):
         dict(label="tee/terminals-pinned-at-1/smoothed/adaptive", dev="tee", smooth=5, mel=0.6, terminal_psi=1.0, adaptive=True, dt_max=0.125),
         dict(label="barhole/terminals-pinned-at-1/screening/adaptive/gamma=1", dev="barhole", smooth=0, gamma=1.0, terminal_psi=1.0, adaptive=True,
              screening=True, dt=2.0 ** -10, dt_max=2.0 ** -8, solve_time=0.05),
+        # histories in one process: a solver was built for a TWIN mesh (same triangulation, other geometry) before the observed run
+        dict(label="history/film/raw-mesh-then-smoothed-twin/screening", func="stationary_history", dev="film", twin="smooth", order="AB", screening=True,
+             adaptive=True, dt_max=0.125, solve_time=1.0),
+        dict(label="history/film/smoothed-mesh-then-raw-twin/screening", func="stationary_history", dev="film", twin="smooth", order="BA", screening=True,
+             adaptive=False, solve_time=0.4),
+        dict(label="history/tee/xi=1-then-xi=2-twin/screening/unpinned", func="stationary_history", dev="tee", twin="xi", order="AB", screening=True,
+             adaptive=True, dt_max=0.125, solve_time=1.0),
+        dict(label="history/ring/xi=2-then-xi=1-twin/screening/warm-up-with-screening", func="stationary_history", dev="ring", twin="xi", order="BA",
+             screening=True, warm_screening=True, adaptive=False, solve_time=0.4),
         # small rounding seed (small fixed step, low gamma): bit-exactness is demanded on these whatever the known finding says
         dict(label="bar/gamma=0/fixed-step/dt=2^-9", dev="bar", smooth=0, gamma=0.0, adaptive=False, dt=2.0 ** -9, solve_time=0.06),
         dict(label="barhole/smoothed/gamma=1/fixed-step/dt=2^-10", dev="barhole", smooth=30, gamma=1.0, adaptive=False, dt=2.0 ** -10, solve_time=0.03),
@@ -38,6 +47,13 @@ def matrix(ctx):
              dt=2.0 ** -11, solve_time=0.012),
     ]
     if not ctx.quick:
+        for dev in ("film", "bar", "tee", "cross", "ring"):
+            for twin in ("smooth", "xi"):
+                for order in ("AB", "BA"):
+                    for screening in (True, False):
+                        runs.append(dict(label=f"history/{dev}/twin={twin}/order={order}/screening={screening}", func="stationary_history", dev=dev, twin=twin,
+                                         order=order, screening=screening, warm_screening=(order == "BA"), adaptive=(twin == "xi"), dt_max=0.125,
+                                         mel=0.7, smooth=25, solve_time=(1.0 if twin == "xi" else 0.4)))
         for dev in ("film", "bar", "barhole", "tee", "cross", "ring"):
             for smooth in (0, 20):
                 for adaptive, dt_max in ((False, None), (True, 0.0625), (True, 1.0)):
@@ -61,8 +77,14 @@ def run(ctx):
                     expect_violation="UniformStateStationary", count=False)
     # 2./3. natural undriven runs, validated by TLC
     runs = matrix(ctx)
-    jobs = [("call", dict(module="harness.runobs", func="stationary_run", args=a)) for a in runs]
+    jobs = [("call", dict(module="harness.runobs", func=a.get("func", "stationary_run"), args=a)) for a in runs]
     traces = rf.replay_all(ctx, jobs)
+    skipped = [a["label"] for a, t in zip(runs, traces) if t.get("skipped")]
+    ctx.cov["twin_mesh_histories"] = {"planned": sum(1 for a in runs if a.get("func") == "stationary_history"), "skipped_not_twins": skipped}
+    if ctx.cov["twin_mesh_histories"]["planned"] - len(skipped) < 2:
+        raise core.MachineryFailure(f"C17: fewer than 2 twin-mesh histories could be built (skipped: {skipped})")
+    keep = [n for n, t in enumerate(traces) if not t.get("skipped")]
+    runs, traces = [runs[n] for n in keep], [traces[n] for n in keep]
     for a, t in zip(runs, traces):
         if len(t["ev"]) < 2 and not t.get("raised"):
             raise core.MachineryFailure(f"C17: run {a['label']} recorded fewer than two frames")
